@@ -739,6 +739,9 @@ func init() {
 						if c, ok := src.(*ssa.Call); ok && c.Call.StaticCallee() != nil && stampsRecvTime(c.Call.StaticCallee()) && instrDominates(c, mc) {
 							okk = true
 							why = "ctx = " + c.Call.StaticCallee().Name() + "(...) before the closure is created"
+						} else if st := stampedInPlace(fn.Parent(), src, mc); st != nil {
+							okk = true
+							why = "the context is stamped in the enclosing function before the closure is created"
 						} else {
 							why = "the captured context does not come from a function that stamps the receive time"
 						}
@@ -851,6 +854,26 @@ func init() {
 			}
 			r.Check(okk, fname(fn), "every request with ITimeout > 0 is tested against its own deadline", sel.Pos(), "ctx at the deadline test = WithTimeout(...) unless ITimeout <= 0", "%s: a request whose own timeout already elapsed while it was queued (non-positive remainder) gets no deadline, is executed and answered with success instead of the queue-timeout code", detail)
 		}})
+}
+
+// stampedInPlace: a call that stamps the receive time on the very context value v, before `before`
+// (the stamping function written in line in the enclosing function).
+func stampedInPlace(fn *ssa.Function, v ssa.Value, before ssa.Instruction) ssa.Instruction {
+	var hit ssa.Instruction
+	eachInstr(fn, func(in ssa.Instruction) {
+		c := callCommon(in)
+		if c == nil || len(c.Args) == 0 {
+			return
+		}
+		if o := calleeObj(c); o == nil || o.Name() != "SetRecvPkgTsFromContext" {
+			return
+		}
+		a := c.Args[0]
+		if (a == v || sameValue(a, v)) && instrDominates(in, before) {
+			hit = in
+		}
+	})
+	return hit
 }
 
 func stampsRecvTime(f *ssa.Function) bool {
